@@ -7,6 +7,7 @@ import threading
 import time
 
 import c20_domain
+import c20_preempt as PRE
 import c20_run as R
 from framework import LEAN, pmap, write_if_changed
 
@@ -26,7 +27,9 @@ THEOREMS = [
     'Pfst.C20.interleave', 'Pfst.C20.interleave_exec', 'Pfst.C20.stepVis_is_schedule',
     'Pfst.C20.real_tables_wf', 'Pfst.C20.real_set_invalid', 'Pfst.C20.real_block_restores_all',
 ]
-RULE = ('(a) check_options on random 1-4 key mappings over the probe domain (23 names x 50 values incl. mutable list '
+RULE = ('(0) deterministic preemption inside calls: two threads edit their own copy() of one module with a non-ASCII '
+        'line; thread A is parked at every line event of every method executing on a shared line object, B runs its whole '
+        'script or is itself parked at sampled points; each result compared with the same script alone; (a) check_options on random 1-4 key mappings over the probe domain (23 names x 50 values incl. mutable list '
         'values for `op`, both all=True and '
         'all=False) vs the table-driven model; (b) random option programs (get_option / edit call with per-call options / '
         'set_options / with options(): nested up to depth 3 / raise / try-except; invalid names and values at every key '
@@ -88,8 +91,13 @@ TRUSTED = [
 ]
 ASSUMPTIONS = [
     'the atomic step of the model is one API call on one thread; preemption INSIDE one pfst call (bytecode-level '
-    'interleaving under the GIL, or free-threaded builds) is not modellable here; it is only exercised empirically by the '
-    'free-running thread sweep (sys.setswitchinterval(1e-6))',
+    'interleaving under the GIL, or free-threaded builds) is outside the executable model. It is exercised (i) '
+    'deterministically for the only state different trees share - the line objects (astutil.bistr, lazily built '
+    'c2b/b2c tables) two copy()s of one module have in common: with sys.settrace thread A is parked at EVERY line event '
+    'inside a method running on a shared line object while B runs through or is parked at sampled points of its own; '
+    '(ii) empirically by the free-running thread sweep (sys.setswitchinterval(1e-6)). Per-node caches belong to one tree '
+    'and are not shared between trees; module-level state is the option store and the _MODIFYING registry (modelled / '
+    'checked per call)',
     'threading.local gives every thread its own __dict__, initialised by _ThreadOptions.__init__ (CPython semantics)',
     'a with-block is entered and left by the thread that created it (generators moved across threads are out of scope)',
 ]
@@ -561,7 +569,77 @@ def _shield_sweep(ctx, full):
     ctx.notes['shield_comparisons'] = n
 
 
+# ---- preemption inside library calls on state shared between trees (line objects after copy()) --------------------
+
+def _preempt_job(arg):
+    si, ka, kb, pa, pbs = arg
+    F = R.dom().FST
+    src = PRE.sources()[si]
+    out = []
+    try:
+        r1 = PRE.run(F, src, ka, kb, pa, None)
+        nB = r1['cnt']['B']
+        todo = [(None, r1)]
+        step = max(1, nB // pbs) if pbs else nB + 1
+        for pb in range(0, nB, step):
+            todo.append((pb, None))
+        for pb, r in todo:
+            r = r or PRE.run(F, src, ka, kb, pa, pb)
+            bad = None
+            if r['hung']:
+                bad = 'a thread did not finish'
+            elif r['res'] != r['solo']:
+                t = 'A' if r['res'].get('A') != r['solo'].get('A') else 'B'
+                bad = f'thread {t} gets {r["res"].get(t)!r}, alone {r["solo"].get(t)!r}'
+            elif not r['master_ok']:
+                bad = 'the tree both copies were made from changed'
+            elif not all(PRE.parses(v) for v in r['res'].values() if not v.startswith('EXC')):
+                bad = 'result does not parse'
+            out.append({'pa': pa, 'pb': pb, 'where': r['where'], 'bad': bad})
+        return {'si': si, 'ka': ka, 'kb': kb, 'runs': out}
+    except Exception:
+        import traceback
+        return {'harness_error': traceback.format_exc()[-600:]}
+    finally:
+        R.reset_options()
+
+
+def _preempt_sweep(ctx):
+    """EVERY preemption point of thread A inside a method running on a shared line object x (B runs through | B is
+    parked at sampled points of its own, A finishes first): both threads edit their own copy and must get the solo
+    result"""
+    F = R.dom().FST
+    q = ctx.quick
+    jobs = []
+    for si, src in enumerate(PRE.sources()):
+        for ka, kb in ((0, 0), (1, 2)) if q else ((0, 0), (1, 2), (2, 1), (0, 1)):
+            nA = PRE.run(F, src, ka, kb, None, None)['cnt']['A']
+            for pa in range(nA):
+                jobs.append((si, ka, kb, pa, 5 if q else 16))
+    outs = pmap(_preempt_job, jobs, chunksize=2)
+    n = 0
+    for o in outs:
+        if 'harness_error' in o:
+            ctx.brk('correspondence', 'C20.preempt', o['harness_error'])
+            break
+        for r in o['runs']:
+            n += 1
+            ctx.count(['preempt', o['si'], o['ka'], o['kb'], r['pa'], r['pb']], True)
+            if r['bad']:
+                fa = r['where'].get('A', '?').split(':')[0]
+                fb = r['where'].get('B', '-').split(':')[0] if r['pb'] is not None else '-'
+                kind = 'both-inside' if r['pb'] is not None and 'B' in r['where'] else 'one-inside'
+                ctx.fail(f'C20|thread|preempt|{kind}|{fa}|{fb}',
+                         f'two threads editing their own copies of one module (shared line objects): thread A preempted at '
+                         f'{r["where"].get("A")}' + (f', thread B preempted at {r["where"].get("B")}, A finishes first'
+                                                   if kind == 'both-inside' else ', B runs its whole script meanwhile')
+                         + f': {r["bad"]}',
+                         {'preempt': {'src': PRE.sources()[o['si']], 'ka': o['ka'], 'kb': o['kb'], 'pa': r['pa'], 'pb': r['pb']}})
+    ctx.notes['preemption_interleavings'] = n
+
+
 def correspondence(ctx):
+    _preempt_sweep(ctx)
     q = ctx.quick
     # (a)
     rng = random.Random(ctx.rng.random())
@@ -1275,6 +1353,11 @@ def replay(ctx, data):
             o = _shield_case((fns, eids, w['call'], [w['defaults']]))
             for b in o.get('bad', []):
                 ctx.fail('replay', f'{b[0]}: defaults {_pretty(b[1])} call {_pretty(b[2])}: {b[3][:100]!r} vs alone {b[4][:100]!r}', w)
+        elif 'preempt' in w:
+            p = w['preempt']
+            r = PRE.run(R.dom().FST, p['src'], p['ka'], p['kb'], p['pa'], p['pb'])
+            if r['res'] != r['solo'] or r['hung']:
+                ctx.fail('replay', f'preempted at {r["where"]}: {r["res"]} vs alone {r["solo"]}', w)
         elif 'sub' in w:
             o = _sub_case((w['sub'], w['defaults'], w['top'], w['copy_options'], w['repl_options']))
             if o.get('got') != o.get('ref'):
